@@ -8,7 +8,12 @@
 //!     (word offset of the header in `heap`, << 2), 3 = function (index << 2)
 //! Heap objects live in one word arena: header = (length << 32 | module type index), then the
 //! payload (one word per struct field / array element; i8 and i16 arrays are packed).
-//! There is no garbage collector: a run that exceeds the arena limit ends as `End::Budget`.
+//! There is no garbage collector: a run that exceeds the arena limit (default 64 Mi words, override
+//! with VH_WASM_HEAP_WORDS) ends as `End::Budget`, like running out of fuel.
+//! Fuel counts executed `Op`s: block/loop/end/nop cost nothing, every other wasm instruction costs
+//! one (a conditional branch that has to unwind operands costs two).
+//! Not supported (reported as Err "unsupported opcode: ..."): floats, linear memory, SIMD, threads,
+//! exceptions.  VH_WASM_TIMING=1 prints phase timings and the executed op count to stderr.
 use super::{End, Run};
 use std::collections::HashMap;
 use wasmparser::{
@@ -1650,9 +1655,10 @@ impl<'m> Machine<'m> {
     let limit = self.heap_limit;
 
     macro_rules! trap {
-      ($s:expr) => {
-        return Err(Stop::Trap($s))
-      };
+      ($s:expr) => {{
+        self.fuel = fuel;
+        return Err(Stop::Trap($s));
+      }};
     }
     macro_rules! un32 {
       ($st:expr, $sp:expr, |$a:ident| $e:expr) => {{
